@@ -17,14 +17,21 @@ var VerifHook func(ev string, kv ...interface{})
 
 func vhook(ev string, kv ...interface{}) {
 	if h := VerifHook; h != nil {
-		// call sites pass the *table; the hook gets its name
+		// call sites pass the *table (or the *DB); the hook gets its name, qualified
+		// by the node's role when the database is part of a cluster
 		if len(kv) > 0 {
-			if t, ok := kv[0].(*table); ok {
+			switch x := kv[0].(type) {
+			case *table:
 				name := ""
-				if t != nil && t.TableOpts != nil {
-					name = t.Name
+				if x != nil && x.TableOpts != nil {
+					name = x.Name
+					if x.db != nil && x.db.opts != nil && (x.db.opts.Passthrough || x.db.opts.NumPartitions > 0) {
+						name = name + "@" + x.db.opts.logSuffix()
+					}
 				}
 				kv[0] = name
+			case *DB:
+				kv[0] = "@" + x.opts.logSuffix()
 			}
 		}
 		h(ev, kv...)
